@@ -322,14 +322,14 @@ func main() {
 	initOpts()
 	initLeaves()
 	ev.Main("C18", "model_checking", func(c *ev.Ctx) {
-		c.Rule("types = reflect.StructOf over (kind x option) field specs passing the documented-domain predicate: all 1- and 2-field structs, 3-field structs over a reduced grid, struct-in-struct and slice-of-struct over every 1-field inner type; values = full product of per-kind alphabets (<=2 fields), <=2 deviations from a baseline (3 fields); a case is non-trivial when Marshal succeeded, no documented limitation applied and the encoding is not the empty SEQUENCE. Verdicts per case: Marshal succeeds on the domain; its output is well-formed DER (walker), IS the encoding of the value under the declared type (typed walker: class, tag number, constructed bit and content octets of every component, EXPLICIT wrappers and IMPLICIT-tagged contents included, expected identifier computed by the harness from the field options) and equals Go's encoding/asn1.Marshal of the same value/type byte for byte; strict Unmarshal consumes everything and yields an equal value; re-Marshal reproduces the bytes; Go's encoding/asn1.Unmarshal reads the bytes as the same value. Option-token ORDER (perm.go): every option set of the alphabet with >=2 tokens is additionally written in EVERY other permutation of its tokens (2 tokens: 1, 3: 5, 4: 23 further orders) on 1-field structs of every kind (extended alphabets), on 2-field structs with an int successor (int, string), and as the outer option of the nested shapes; the expectation (typed walker) does not depend on the order. Tag NUMBER: structs with two OPTIONAL members of one kind that differ only in the tag number, per class {context, application, private} x {IMPLICIT, EXPLICIT} x number pairs {(0,1),(1,0),(1,2),(3,0),(0,3)} x every permutation of either member's tokens x the full value product (quick: 9 kinds, thorough: all), which includes earlier-absent/later-present (counted), where a wrong tag number changes the decoded value")
+		c.Rule("types = reflect.StructOf over (kind x option) field specs passing the documented-domain predicate: all 1- and 2-field structs, 3-field structs over a reduced grid, struct-in-struct and slice-of-struct over every 1-field inner type; values = full product of per-kind alphabets (<=2 fields; the string alphabet's extended level, used by every 1-field struct under every option incl. ia5/printable/numeric/utf8, is built systematically: per UTF-8 length class (2, 3, 4 bytes) one rune whose low byte (rune&0xff) is a PrintableString character and one whose low byte is not, alone and mixed with ASCII, U+0080, U+00FF, U+0100, U+10FFFF, every edge character of the PrintableString set alone (A Z a z 0 9 space and each punctuation character) and 16 excluded ASCII characters alone (* @ & _ ! \" # $ % ; < > [ ` { ~)), <=2 deviations from a baseline (3 fields); a case is non-trivial when Marshal succeeded, no documented limitation applied and the encoding is not the empty SEQUENCE. Verdicts per case: Marshal succeeds on the domain; its output is well-formed DER (walker), IS the encoding of the value under the declared type (typed walker: class, tag number, constructed bit and content octets of every component, EXPLICIT wrappers and IMPLICIT-tagged contents included, expected identifier computed by the harness from the field options) and equals Go's encoding/asn1.Marshal of the same value/type byte for byte; strict Unmarshal consumes everything and yields an equal value; re-Marshal reproduces the bytes; Go's encoding/asn1.Unmarshal reads the bytes as the same value. Option-token ORDER (perm.go): every option set of the alphabet with >=2 tokens is additionally written in EVERY other permutation of its tokens (2 tokens: 1, 3: 5, 4: 23 further orders) on 1-field structs of every kind (extended alphabets), on 2-field structs with an int successor (int, string), and as the outer option of the nested shapes; the expectation (typed walker) does not depend on the order. Tag NUMBER: structs with two OPTIONAL members of one kind that differ only in the tag number, per class {context, application, private} x {IMPLICIT, EXPLICIT} x number pairs {(0,1),(1,0),(1,2),(3,0),(0,3)} x every permutation of either member's tokens x the full value product (quick: 9 kinds, thorough: all), which includes earlier-absent/later-present (counted), where a wrong tag number changes the decoded value")
 		c.Assume(
 			"asn1.AllowPermissiveParsing=false for the whole process",
 			"domain predicate (domain.go): RawValue only with ''/optional; Flag only on optional fields; set on structs/slices; omitempty on slices; default only with optional on integers; string/time type options on strings/times",
 			"types whose OPTIONAL field shares a possible tag with a following field (up to the next mandatory one) are inherently ambiguous, excluded and counted; a Go string may carry any character-string tag, time.Time UTCTime|GeneralizedTime, RawValue any tag",
 			"limitations exempt from the round trip (still must not panic): IMPLICIT tag on a Go type that stands for a CHOICE when the options do not fix the alternative (string without string-type option holding non-PrintableString characters: documented; time.Time without 'generalized' whose year needs GeneralizedTime: same reason); omitempty without optional on an empty slice; OPTIONAL struct equal to zero only up to nil==empty; strings that are not valid UTF-8; inconsistent BitString / RawValue; OID arcs or Enumerated beyond int32; time zone offsets with seconds",
 			"equalities: SET OF up to order, times as instants truncated to the second, nil==empty slices, absent OPTIONAL==zero value, RawValue by the element it denotes",
-			"typed walker (typed.go): where the documentation leaves a choice every alternative is accepted: a string without string-type option may be UTF8String or any of Printable/IA5/NumericString whose repertoire holds the value, time.Time without option UTCTime (1950..2049) or GeneralizedTime, a component that equals its zero value/DEFAULT (OPTIONAL) or is an empty omitempty slice may be absent or present",
+			"typed walker (typed.go): where the documentation leaves a choice every alternative is accepted: a string without string-type option is PrintableString exactly when every character is in the X.680 PrintableString set ('*' and '&' are not) and UTF8String otherwise (Marshal's rule in makeField, identical in Go's encoding/asn1), time.Time without option UTCTime (1950..2049) or GeneralizedTime, a component that equals its zero value/DEFAULT (OPTIONAL) or is an empty omitempty slice may be absent or present",
 			"Go's encoding/asn1 (the version this binary is built with) as a second oracle for values inside the domain: Marshal must give identical bytes (the fork documents no deliberate Marshal difference; 0 differences on the unchanged tree); Unmarshal must return the same value, except the two rejection classes where the fork is deliberately more capable than the standard library (repaired defects da54108 / 5a1db0a, still present upstream): 'explicitly tagged member didn't match' on types with an EXPLICIT PRIVATE tag, 'explicit tag has no child' on types with an OPTIONAL EXPLICIT component, and (the first defect on an OPTIONAL component: the standard library takes the PRIVATE element for another tag and reads the component as absent) a different decoded value on types with an OPTIONAL EXPLICIT PRIVATE component; outside the domain both comparisons stay observations",
 		)
 
